@@ -253,6 +253,11 @@ Proof.
   intro H. apply join_forall; [reflexivity|]. eapply Forall_impl; [|exact H]. intros l Hl. apply linec_txtc, Hl.
 Qed.
 
+Lemma lines_upper ls : Forall (fun l => Forall (fun c => linec c = true) l) ls -> map upper ls = ls.
+Proof.
+  induction 1 as [|l ls Hl _ IH]; [reflexivity|]. cbn [map]. rewrite IH, (txt_upper l (linec_txtc l Hl)). reflexivity.
+Qed.
+
 (* rrulestr on a multi-line text: exactly the listed members, in their roles *)
 Theorem set_assembly_text ev o short its rr xr :
   its <> [] -> forallb wf_item its = true ->
@@ -271,8 +276,9 @@ Proof.
     apply render_item_line. rewrite forallb_forall in Hw. apply Hw, Hit. }
   assert (Ht : Forall (fun c => txtc c = true) (join [10] ls)).
   { apply join_lines_chars. eapply Forall_impl; [|exact Hls]. intros l [H _]. exact H. }
-  unfold parse_rfc. rewrite (txt_ascii _ Ht). cbn [negb]. rewrite (txt_upper _ Ht).
-  unfold parse_upper. rewrite Hc, Hu, !orb_false_r.
+  assert (Hlu : map upper ls = ls).
+  { apply lines_upper. eapply Forall_impl; [|exact Hls]. intros l [H _]. exact H. }
+  unfold parse_rfc. rewrite (txt_ascii _ Ht). cbn [negb].
   assert (Hw2 : words (join [10] ls) = ls).
   { apply words_join. eapply Forall_impl; [|exact Hls]. intros l [H1 H2]. split; [exact H2|apply linec_nosp, H1]. }
   assert (Hstrip : isnil (strip (join [10] ls)) = false).
@@ -282,7 +288,8 @@ Proof.
     - cbn [join]. rewrite <- (app_nil_r l). apply strip_nonnil_app; [exact Hl2|apply linec_nosp, Hl1].
     - change (join [10] (l :: l2 :: ls2)) with (l ++ 10 :: join [10] (l2 :: ls2)).
       apply strip_nonnil_app; [exact Hl2|apply linec_nosp, Hl1]. }
-  rewrite Hstrip. unfold get_lines. rewrite Hw2.
+  rewrite Hstrip. rewrite Hc, Hu. cbn [orb]. unfold get_lines. rewrite Hw2, Hlu, (txt_upper _ Ht).
+  unfold parse_lines. rewrite Hc, !orb_false_r.
   assert (Hsc : shortcut (o_forceset o) (join [10] ls) ls = false).
   { unfold shortcut. destruct (o_forceset o); [reflexivity|]. cbn [negb andb].
     destruct its as [|it [|it2 its']]; [congruence| |].
